@@ -17,7 +17,6 @@ NA = {
  "C22": "protocol-level safety over all executions of a distributed protocol (message delay, loss, Byzantine voters): not expressible as per-function contracts; the per-call threshold/quorum facts are covered under C18/C19/C21 where claimed",
  "C29": "oracle is a reference implementation of cryptographic primitives (BLAKE2b, xxHash, Keccak, ed25519/ZIP-215, schnorrkel, secp256k1) behind third-party assembly/unsafe code: no contract within reach decides digest or verdict equality",
  "C36": "quantifies over crash points of a global write history across packages followed by the restart path over pebble: needs a whole-schema recoverability predicate and fault enumeration, not a per-function contract",
- "C02": "not claimed: contracts for the in-memory trie walkers are drafted (/repo/pkg/trie/inmemory/verif_contracts.go, tag verif) but the check of the recursive walkers does not finish within 15 minutes on this machine, so nothing is claimed; a candidate repair of the key-divergence defects found while writing them is kept in /verif/pending/C02 and is not applied",
 }
 
 def main():
